@@ -9,6 +9,8 @@
 #include <setjmp.h>
 #include <signal.h>
 #include <sys/time.h>
+#include <sys/mman.h>
+#include <ucontext.h>
 #include "vh.h"
 
 #define HG_TICK_US 20000				/* hang guard tick, microseconds of CPU time */
@@ -62,6 +64,35 @@ senum_next(senum_t *e) { /* first call yields the empty string */
 	return (1);
 }
 
+/* ------------------------------------------------------------ guard-page arena
+ * ASan reports cost about a millisecond each; a target that over-reads on a tenth of all inputs
+ * would spend the whole budget printing reports.  For such targets (all of them non-allocating, run
+ * under hg_call) the objects are placed in small mmap()ed slots instead: one read/write page between
+ * two PROT_NONE pages, the object flush against the upper guard (over-run faults) or against the
+ * lower guard (under-run faults).  The fault is turned into a clause by the SIGSEGV handler below. */
+#define GP_SLOTS 8
+#define GP_PAGE	4096
+typedef struct gp_slot_s { uint8_t *lo, *rw, *hi; const char *name; uint8_t *obj; size_t obj_len; } gp_slot_t;
+static gp_slot_t gp[GP_SLOTS];
+
+static void
+gp_init(void) {
+	int i;
+	for (i = 0; i < GP_SLOTS; i ++) {
+		uint8_t *m = (uint8_t *)mmap(NULL, 3 * GP_PAGE, PROT_NONE, MAP_PRIVATE | MAP_ANONYMOUS, -1, 0);
+		if (MAP_FAILED == (void *)m || 0 != mprotect(m + GP_PAGE, GP_PAGE, PROT_READ | PROT_WRITE)) { fprintf(stderr, "gp_init failed\n"); exit(2); }
+		gp[i].lo = m; gp[i].rw = m + GP_PAGE; gp[i].hi = m + 2 * GP_PAGE; gp[i].name = "";
+	}
+}
+
+static void *
+gp_place(int slot, const char *name, const void *src, size_t len, int at_end) {
+	uint8_t *p = at_end ? gp[slot].hi - len : gp[slot].rw;
+	gp[slot].name = name; gp[slot].obj = p; gp[slot].obj_len = len;
+	if (len && NULL != src) memcpy(p, src, len);
+	return (p);
+}
+
 /* ------------------------------------------------------------ hang guard (non-allocating callees only)
  * A repeating ITIMER_VIRTUAL tick; a guarded call that is still the same call on two
  * consecutive ticks (>= HG_TICK_US of CPU, a normal call takes microseconds) is abandoned with
@@ -78,12 +109,25 @@ hg_tick(int sig) {
 	hg_seen = hg_serial;
 }
 
-/* A wild read (e.g. a table indexed with an attacker-controlled value) faults instead of hitting a
- * redzone.  Inside a guarded call the fault is recorded for the current case and enumeration goes
- * on; anywhere else the default action is restored so that the driver sees the crash. */
+/* A wild access (e.g. a table indexed with an attacker-controlled value) or an access to a guard
+ * page of the arena faults instead of hitting a redzone.  Inside a guarded call the fault is recorded
+ * for the current case and enumeration goes on; anywhere else the default action is restored so that
+ * the driver sees the crash. */
+static volatile int hg_fault_slot, hg_fault_hi, hg_fault_write; static volatile long hg_fault_off;
 static void
-hg_fault(int sig) {
-	if (hg_armed) { hg_armed = 0; hg_why = (SIGSEGV == sig) ? 2 : 3; siglongjmp(hg_env, 1); }
+hg_fault(int sig, siginfo_t *si, void *uc) {
+	if (hg_armed) {
+		int i; const uint8_t *a = (const uint8_t *)si->si_addr;
+		hg_armed = 0; hg_why = (SIGSEGV == sig) ? 2 : 3; hg_fault_slot = -1;
+#ifdef REG_ERR
+		hg_fault_write = (0 != (((ucontext_t *)uc)->uc_mcontext.gregs[REG_ERR] & 2));
+#endif
+		for (i = 0; i < GP_SLOTS; i ++) {
+			if (a >= gp[i].lo && a < gp[i].rw) { hg_fault_slot = i; hg_fault_hi = 0; hg_why = 4; hg_fault_off = (long)(a - gp[i].obj); }
+			if (a >= gp[i].hi && a < gp[i].hi + GP_PAGE) { hg_fault_slot = i; hg_fault_hi = 1; hg_why = 4; hg_fault_off = (long)(a - gp[i].obj); }
+		}
+		siglongjmp(hg_env, 1);
+	}
 	signal(sig, SIG_DFL);
 	raise(sig);
 }
@@ -91,9 +135,11 @@ hg_fault(int sig) {
 static void
 hg_init(void) {
 	struct sigaction sa; struct itimerval it;
+	gp_init();
 	memset(&sa, 0, sizeof(sa)); sigemptyset(&sa.sa_mask); sa.sa_flags = SA_NODEFER;
 	sa.sa_handler = hg_tick; sigaction(SIGVTALRM, &sa, NULL);
-	sa.sa_handler = hg_fault; sigaction(SIGSEGV, &sa, NULL); sigaction(SIGBUS, &sa, NULL);
+	sa.sa_flags = SA_NODEFER | SA_SIGINFO; sa.sa_sigaction = hg_fault;
+	sigaction(SIGSEGV, &sa, NULL); sigaction(SIGBUS, &sa, NULL);
 	it.it_interval.tv_sec = 0; it.it_interval.tv_usec = HG_TICK_US; it.it_value = it.it_interval;
 	setitimer(ITIMER_VIRTUAL, &it, NULL);
 }
@@ -107,9 +153,41 @@ hg_call(void (*fn)(void *), void *ctx) {
 		return (0);
 	}
 	if (1 == hg_why) vh_fail("no-termination", "call did not return within %d ms of CPU time (abandoned)", HG_TICK_US / 1000);
-	else vh_fail((2 == hg_why) ? "crash-SIGSEGV" : "crash-SIGBUS", "the call faulted on an unmapped address");
+	else if (4 == hg_why) {
+		char clause[64];
+		snprintf(clause, sizeof(clause), "guard-page:%s-%s:%s", hg_fault_write ? "WRITE" : "READ", hg_fault_hi ? "past-end" : "before-start", gp[hg_fault_slot].name);
+		vh_fail(clause, "access to the guard page %s the object '%s' (%zu bytes): byte offset %ld", hg_fault_hi ? "right behind" : "right before",
+		    gp[hg_fault_slot].name, gp[hg_fault_slot].obj_len, hg_fault_off);
+	} else vh_fail((2 == hg_why) ? "crash-SIGSEGV" : "crash-SIGBUS", "the call faulted on an unmapped address");
 	return (1);
 }
+
+/* ------------------------------------------------------------ output buffers
+ * `cap` usable bytes with 128 canary bytes on both sides inside one heap block.  The margins are
+ * deliberately NOT poisoned: a near overflow is then found by the canary comparison (cheap) instead
+ * of an ASan report (about a millisecond each - some targets overflow on every input).  Anything
+ * farther than 128 bytes away still hits the real ASan redzone of the block. */
+#define OUT_PAD	128
+typedef struct out_buf_s { uint8_t *base, *buf; size_t cap; } out_buf_t;
+
+static inline uint8_t *
+out_alloc(out_buf_t *g, size_t cap) {
+	g->base = (uint8_t *)malloc(cap + 2 * OUT_PAD);
+	g->buf = g->base + OUT_PAD; g->cap = cap;
+	memset(g->base, 0xC5, cap + 2 * OUT_PAD);
+	return (g->buf);
+}
+
+/* 0 = intact; otherwise *where = signed distance of the first modified byte from buf (negative:
+ * before the buffer; >= cap: behind it) */
+static inline int
+out_check(out_buf_t *g, long *where) {
+	size_t i;
+	for (i = 0; i < OUT_PAD; i ++) if (g->base[i] != 0xC5) { *where = (long)i - OUT_PAD; return (1); }
+	for (i = 0; i < OUT_PAD; i ++) if (g->buf[g->cap + i] != 0xC5) { *where = (long)(g->cap + i); return (1); }
+	return (0);
+}
+static inline void out_free(out_buf_t *g) { free(g->base); g->base = NULL; }
 
 /* ------------------------------------------------------------ capacity sweep */
 typedef struct call_res_s {
@@ -123,8 +201,8 @@ typedef void (*sweep_fn)(void *ctx, uint8_t *dst, size_t cap, call_res_t *r);
 #define SWEEP_HARD_MAX	96
 
 /* Try every capacity 0 .. max(need+1, cap_to) where need starts at need0 and grows to whatever
- * the callee reports.  Output buffers are vh_guard buffers (poisoned + canary on both sides).
- *   write-outside-capacity     canary changed (only raised when ASan did not already report)
+ * the callee reports.  Output buffers are out_alloc() buffers (canary on both sides).
+ *   write-outside-capacity     a canary byte changed
  *   reported-size-insufficient callee said "need R", call with capacity R said "too small" again
  *   exact-size-refused         (exact != 0) capacity >= need0 (the contractual size) refused
  *   len-exceeds-capacity       success, and the length it reports is larger than the capacity
@@ -134,16 +212,16 @@ sweep(sweep_fn fn, void *ctx, size_t need0, int exact, size_t cap_min, size_t ca
 	size_t need = need0, cap, last_rep = SENT, hi;
 	int ok = 0;
 	for (cap = 0; ; cap ++) {
-		vh_guard_t g; call_res_t r; uint8_t *dst;
+		out_buf_t g; call_res_t r; uint8_t *dst; long where;
 		hi = (need + 1 > cap_to) ? need + 1 : cap_to;
 		if (hi > SWEEP_HARD_MAX) hi = SWEEP_HARD_MAX;
 		if (cap > hi) break;
 		r.cls = 2; r.rc = 0; r.reported = SENT; r.produced = SENT;
-		dst = vh_guard_alloc(&g, cap);
+		dst = out_alloc(&g, cap);
 		g_cap = cap;
 		fn(ctx, dst, cap, &r);
-		if (vh_guard_check(&g) && 0 == vh_case_failed)
-			vh_fail("write-outside-capacity", "bytes next to the %zu-byte output buffer were modified (rc=%d)", cap, r.rc);
+		if (out_check(&g, &where))
+			vh_fail("write-outside-capacity", "byte dst[%ld] modified, capacity %zu (rc=%d)", where, cap, r.rc);
 		if (1 == r.cls && SENT != last_rep && cap == last_rep)
 			vh_fail("reported-size-insufficient", "callee reported %zu as required, capacity %zu refused again (rc=%d)", last_rep, cap, r.rc);
 		if (1 == r.cls && SENT != r.reported) {
@@ -157,7 +235,7 @@ sweep(sweep_fn fn, void *ctx, size_t need0, int exact, size_t cap_min, size_t ca
 			if (SENT != r.produced && r.produced > cap)
 				vh_fail("len-exceeds-capacity", "success with reported length %zu > capacity %zu", r.produced, cap);
 		}
-		vh_guard_free(&g);
+		out_free(&g);
 	}
 	g_cap = SENT;
 	return (ok);
